@@ -115,6 +115,14 @@ func ordindObligations(cc *checkCtx, w *World) *extraResult {
 		}
 		ex.Funcs = append(ex.Funcs, short+"#"+desc)
 	}
+	// hidden shared state between generators: the analysis result handed to every generator is not written by any
+	// of them (assignments, in-place sorts / copies, stores through local aliases of its slices and maps)
+	if w.AnalysisImmutable {
+		ex.Obls = append(ex.Obls, &Obligation{Name: repoModule + "/analysis#immutable-outside-analysis", Func: repoModule + "/analysis", Kind: "post", Text: "no statement outside package analysis writes a node of the analysis result", Result: "unsat", Solver: "syntactic", Preset: true})
+	} else {
+		ex.Obls = append(ex.Obls, presetObligation(repoModule+"/analysis#immutable-outside-analysis", repoModule+"/analysis", strings.Join(w.ImmutabilityNotes, "; "),
+			"a generator writes a node of the analysis result (shared by every generator of the process): "+strings.Join(w.ImmutabilityNotes, "; "), "shared-state-written"))
+	}
 	ex.Coverage["nondeterminism_sources"] = len(srcs)
 	ex.Coverage["order_independence_proved"] = proved
 	ex.Coverage["argued_not_proved"] = argued
